@@ -8,6 +8,7 @@ use std::time::{Duration, Instant};
 mod eval;
 mod rng;
 mod t_time_locks;
+mod t_tree_hash;
 mod t_merkle_set;
 mod t_int_encoders;
 
@@ -33,6 +34,7 @@ fn target(unit: &str) -> Option<Box<dyn Target>> {
         "time_locks" => Some(Box::new(t_time_locks::T)),
         "int_encoders" => Some(Box::new(t_int_encoders::T)),
         "merkle_set" => Some(Box::new(t_merkle_set::T)),
+        "tree_hash" => Some(Box::new(t_tree_hash::T)),
         _ => None,
     }
 }
